@@ -180,28 +180,41 @@ def Sys.measure (s : Sys) : Nat :=
     pRank s.pPhase + cRank s.cPhase + b2n s.outEof + b2n s.errEof
 
 
-/-! ### Part 3: `join()` while the child is still going to write ("join first")
+/-! ### Part 3: `join()` while the child is still reading its input and going to write ("join first")
 
-  The parent calls `join()` (or the destructor does) without having read the redirected streams.
-  `join()` is the sequence of actions of Process.cpp:421-447 AS CODED: `waitpid` first, then the three
-  "close the pipe end if open" blocks.  The child writes its stdout data, then its stderr data
-  (partial writes, blocking on a full pipe), then exits with its code.  A write to a pipe whose read
-  end nobody holds any more terminates the child by SIGPIPE (`signalled`); `WEXITSTATUS` of a
-  signalled child is 0.  Nobody reads: the data has to fit into the pipes. -/
+  The parent calls `join()` (or the destructor does) without having closed the redirected stdin and
+  without having read the redirected output streams.  `join()` is the sequence of actions of
+  Process.cpp:421-447 AS CODED (repaired, fixes/args/0008): the write end of the stdin pipe is closed
+  first, then `waitpid`, then the read ends of the stdout and stderr pipes are closed; each close is
+  guarded by `if(fd)`, i.e. closing an end that is not held does nothing.  The child optionally reads
+  its stdin to end-of-file, then writes its stdout data, then its stderr data (partial transfers,
+  blocking on a full pipe), then exits with its code.  A write to a pipe whose read end nobody holds
+  any more terminates the child by SIGPIPE (`signalled`); `WEXITSTATUS` of a signalled child is 0.
+  Nobody reads the outputs: they have to fit into the pipes. -/
 
 inductive JAct where
   | wait | closeOut | closeErr | closeIn
   deriving Repr, DecidableEq
 
 /-- `Process::join(uint32&)` after the pid check -/
-def joinProgram : List JAct := [.wait, .closeOut, .closeErr, .closeIn]
+def joinProgram : List JAct := [.closeIn, .wait, .closeOut, .closeErr]
+
+/-- what the members `fdStdOutRead != 0`, `fdStdErrRead != 0`, `fdStdInWrite != 0` are after the actions -/
+def actsOnFlags : List JAct → Bool × Bool × Bool → Bool × Bool × Bool
+  | [], f => f
+  | .wait :: r, f => actsOnFlags r f
+  | .closeOut :: r, (_, e, i) => actsOnFlags r (false, e, i)
+  | .closeErr :: r, (o, _, i) => actsOnFlags r (o, false, i)
+  | .closeIn :: r, (o, e, _) => actsOnFlags r (o, e, false)
 
 inductive JPhase where
-  | writingOut | writingErr | exited | signalled
+  | reading | writingOut | writingErr | exited | signalled
   deriving Repr, DecidableEq
 
 structure SysJ where
   cap : Nat
+  inQ : List Nat            -- bytes the parent wrote before join() that the child has not read yet
+  inWr : Bool               -- the parent holds the write end of the stdin pipe
   outQ : List Nat
   errQ : List Nat
   outRd : Bool              -- the parent holds the read end of the stdout pipe
@@ -209,15 +222,22 @@ structure SysJ where
   prog : List JAct          -- what is left of join()
   reaped : Option Nat       -- the exit code join() stored (WEXITSTATUS)
   cPhase : JPhase
+  gotIn : List Nat
   toOut : List Nat
   toErr : List Nat
   exitCode : Nat
 
-def SysJ.init (cap : Nat) (prog : List JAct) (out err : List Nat) (exitCode : Nat) : SysJ :=
-  { cap := cap, outQ := [], errQ := [], outRd := true, errRd := true, prog := prog, reaped := none,
-    cPhase := .writingOut, toOut := out, toErr := err, exitCode := exitCode }
+/-- the moment `join()` is entered: `pending` = input already written, `inp/out/err` = which pipe ends the
+    Process object holds, `reads` = the child reads its stdin to end-of-file before it writes -/
+def SysJ.init (cap : Nat) (prog : List JAct) (inp out err reads : Bool) (pending dout derr : List Nat) (exitCode : Nat) : SysJ :=
+  { cap := cap, inQ := pending, inWr := inp, outQ := [], errQ := [], outRd := out, errRd := err, prog := prog,
+    reaped := none, cPhase := if reads then .reading else .writingOut, gotIn := [], toOut := dout, toErr := derr,
+    exitCode := exitCode }
 
 inductive StepJ : SysJ → SysJ → Prop where
+  | cRead (s : SysJ) (k : Nat) : s.cPhase = .reading → 0 < k → k ≤ s.inQ.length →
+      StepJ s { s with gotIn := s.gotIn ++ s.inQ.take k, inQ := s.inQ.drop k }
+  | cEofIn (s : SysJ) : s.cPhase = .reading → s.inQ = [] → s.inWr = false → StepJ s { s with cPhase := .writingOut }
   | cWriteOut (s : SysJ) (k : Nat) : s.cPhase = .writingOut → s.outRd = true → 0 < k → k ≤ s.toOut.length →
       s.outQ.length + k ≤ s.cap → StepJ s { s with outQ := s.outQ ++ s.toOut.take k, toOut := s.toOut.drop k }
   | cPipeOut (s : SysJ) : s.cPhase = .writingOut → s.outRd = false → s.toOut ≠ [] →
@@ -234,43 +254,48 @@ inductive StepJ : SysJ → SysJ → Prop where
       StepJ s { s with prog := r, reaped := some 0 }
   | pCloseOut (s : SysJ) (r : List JAct) : s.prog = .closeOut :: r → StepJ s { s with prog := r, outRd := false }
   | pCloseErr (s : SysJ) (r : List JAct) : s.prog = .closeErr :: r → StepJ s { s with prog := r, errRd := false }
-  | pCloseIn (s : SysJ) (r : List JAct) : s.prog = .closeIn :: r → StepJ s { s with prog := r }
+  | pCloseIn (s : SysJ) (r : List JAct) : s.prog = .closeIn :: r → StepJ s { s with prog := r, inWr := false }
 
 inductive ReachJ (s0 : SysJ) : SysJ → Prop where
   | init : ReachJ s0 s0
   | step {s s' : SysJ} : ReachJ s0 s → StepJ s s' → ReachJ s0 s'
 
 def jRank : JPhase → Nat
-  | .writingOut => 2 | .writingErr => 1 | .exited => 0 | .signalled => 0
+  | .reading => 3 | .writingOut => 2 | .writingErr => 1 | .exited => 0 | .signalled => 0
 
-def SysJ.measure (s : SysJ) : Nat := s.toOut.length + s.toErr.length + jRank s.cPhase + s.prog.length
+def SysJ.measure (s : SysJ) : Nat :=
+  s.inQ.length + s.toOut.length + s.toErr.length + jRank s.cPhase + s.prog.length
 
 /-- executable run with the scheduler that lets the parent act whenever it can (the schedule that
     exposes a premature close); used by the driver of the correspondence run.  Returns the exit code
-    `join()` stored and whether the child completed. -/
+    `join()` stored (`none` = join() never returns) and whether the child completed. -/
 def SysJ.exec : Nat → SysJ → Option Nat × Bool
   | 0, s => (s.reaped, s.cPhase == .exited)
   | f + 1, s =>
     match s.prog with
     | .closeOut :: r => SysJ.exec f { s with prog := r, outRd := false }
     | .closeErr :: r => SysJ.exec f { s with prog := r, errRd := false }
-    | .closeIn :: r => SysJ.exec f { s with prog := r }
+    | .closeIn :: r => SysJ.exec f { s with prog := r, inWr := false }
     | .wait :: r =>
       match s.cPhase with
       | .exited => SysJ.exec f { s with prog := r, reaped := some s.exitCode }
       | .signalled => SysJ.exec f { s with prog := r, reaped := some 0 }
+      | .reading =>
+        if !s.inQ.isEmpty then SysJ.exec f { s with gotIn := s.gotIn ++ s.inQ.take 1, inQ := s.inQ.drop 1 }
+        else if !s.inWr then SysJ.exec f { s with cPhase := .writingOut }
+        else (none, false)                        -- blocked for ever: the child waits for end-of-file, the parent for the child
       | .writingOut =>
         if s.toOut.isEmpty then SysJ.exec f { s with cPhase := .writingErr }
         else if !s.outRd then SysJ.exec f { s with cPhase := .signalled }
         else if s.outQ.length < s.cap then
           SysJ.exec f { s with outQ := s.outQ ++ s.toOut.take 1, toOut := s.toOut.drop 1 }
-        else (s.reaped, false)                    -- blocked for ever: pipe full, nobody reads
+        else (none, false)                        -- blocked for ever: pipe full, nobody reads
       | .writingErr =>
         if s.toErr.isEmpty then SysJ.exec f { s with cPhase := .exited }
         else if !s.errRd then SysJ.exec f { s with cPhase := .signalled }
         else if s.errQ.length < s.cap then
           SysJ.exec f { s with errQ := s.errQ ++ s.toErr.take 1, toErr := s.toErr.drop 1 }
-        else (s.reaped, false)
+        else (none, false)
     | [] => (s.reaped, s.cPhase == .exited)
 
 end Nstd.Args.Kernel
